@@ -1262,6 +1262,8 @@ class FuncVerifier(object):
             return self.bin(n.op, s_, to_z3(2), st, n)
         a = self.pev(n.left, st)
         b = self.pev(n.right, st)
+        if isinstance(n.op, ast.BitAnd) and isinstance(a, Tag) and a.kind == 'set' and isinstance(b, Tag) and b.kind == 'set':
+            return Tag('setand', a[1], b[1])
         if isinstance(a, Ref) and isinstance(st.heap.get(a.loc), Obj):
             # operator on an object: dispatch to the dunder method of its class (contract if there is one, else inlined)
             dunder = {ast.MatMult: '__matmul__', ast.Add: '__add__', ast.Sub: '__sub__', ast.Mult: '__mul__'}.get(type(n.op))
@@ -1277,6 +1279,25 @@ class FuncVerifier(object):
                 return self.call_contract('%s.%s' % (mcls, dunder), [a, b], n, st, mfile, callee=callee)
             return self.inline_call(mfile, mcls, mdef, [a, b], {}, st, n)
         return self.bin(n.op, a, b, st, n)
+
+    def cplx_array_op(self, op, a, b, av_a, av_b, st, node):
+        """the two complex-array operations of the polynomial class:  0 - cs  (negation)  and  c * cs  (complex scalar times array);
+        complex numbers are an uninterpreted sort with cmul / cneg (their arithmetic meaning is an assumption listed in the evidence)"""
+        from .engine import cneg, cmul
+        if isinstance(op, ast.Sub) and not isinstance(av_a, AV) and isinstance(av_b, AV) and av_b.ndim == 1:
+            z = z3.simplify(as_num(av_a)) if not isinstance(a, PyConst) else None
+            if z is not None and z3.is_int_value(z) and z.as_long() == 0:
+                res = fresh('cneg', av_b.term.sort())
+                k_ = fresh('k', I)
+                st.pc.append(z3.ForAll([k_], z3.Select(res, k_) == cneg(z3.Select(av_b.term, k_)), patterns=[z3.Select(res, k_)]))
+                return st.alloc(AV(res, av_b.shape, 'cplx'))
+        if isinstance(op, ast.Mult) and not isinstance(av_a, AV) and isinstance(av_b, AV) and av_b.ndim == 1:
+            c_ = self.cplx_of(a)
+            res = fresh('cscale', av_b.term.sort())
+            k_ = fresh('k', I)
+            st.pc.append(z3.ForAll([k_], z3.Select(res, k_) == cmul(c_, z3.Select(av_b.term, k_)), patterns=[z3.Select(res, k_)]))
+            return st.alloc(AV(res, av_b.shape, 'cplx'))
+        raise OutOfFragment('complex array arithmetic', node)
 
     def bin(self, op, a, b, st, node):
         if isinstance(a, PyConst) or isinstance(b, PyConst):
@@ -1299,9 +1320,8 @@ class FuncVerifier(object):
         if arr_a or arr_b:
             av_a = self.deref(a, st) if arr_a else as_num(a)
             av_b = self.deref(b, st) if arr_b else as_num(b)
-            for x in (av_a, av_b):
-                if isinstance(x, AV) and x.elem == 'cplx':
-                    raise OutOfFragment('complex array arithmetic', node)
+            if (isinstance(av_a, AV) and av_a.elem == 'cplx') or (isinstance(av_b, AV) and av_b.elem == 'cplx'):
+                return self.cplx_array_op(op, a, b, av_a, av_b, st, node)
             res, side, axioms = array_binop(op, av_a, av_b, node)
             if side:
                 self.oblige(st, self.site(node, 'shape'), z3.And(*side), node)
@@ -1979,6 +1999,19 @@ class FuncVerifier(object):
                 raise OutOfFragment('super() form', n)
             return Tag('super', cls, recv)
         args = [self.pev(a, st) for a in n.args]
+        if name == 'set' and len(args) == 1 and isinstance(args[0], (Ref, View)) \
+                and not (isinstance(args[0], Ref) and not isinstance(st.heap[args[0].loc], AV)):
+            av = self.deref(args[0], st)
+            if av.ndim == 1 and av.elem == 'int':
+                return Tag('set', av)                       # the set of the elements of an integer sequence
+        if name == 'len' and isinstance(args[0], Tag) and args[0].kind == 'setand':
+            # len(set(a) & set(b)): only whether it is zero is characterised -- zero iff the sequences share no element
+            a_, b_ = args[0][1], args[0][2]
+            nn, i_, j_ = fresh('ncommon', I), fresh('i', I), fresh('j', I)
+            share = z3.Exists([i_, j_], z3.And(0 <= i_, i_ < a_.shape[0], 0 <= j_, j_ < b_.shape[0], z3.Select(a_.term, i_) == z3.Select(b_.term, j_)))
+            st.pc.append(nn >= 0)
+            st.pc.append((nn == 0) == z3.Not(share))
+            return nn
         if name == 'len':
             v = args[0]
             if isinstance(v, (Ref, View)) and not (isinstance(v, Ref) and isinstance(st.heap[v.loc], (ListObj, Obj))):
